@@ -198,6 +198,10 @@ func suiteHostileFiles(o *suiteOut, r *rng, tier string, n int) {
 	for _, l := range corpusLines("hostilefiles") {
 		hostileFileCase(o, cur, l)
 	}
+	for _, depth := range []int{1, 2, 3, 8, 16, 20} {
+		hostileFileCase(o, cur, fmt.Sprintf("hostilefile t1chain %d", depth))
+		o.count("chains of composites")
+	}
 	for i := 0; i < nr; i++ {
 		seed := r.next() % 1000000007
 		kind := pick(r, []string{"t1", "t1", "t1", "cmap", "afm", "pfb"})
@@ -232,6 +236,31 @@ func hostileFileCase(o *suiteOut, cur, line string) {
 			t1rLine(o, data)
 			o.count("sabotaged fonts through the reader model (t1r)")
 		}
+	case "t1chain":
+		// a chain of composites, each with the previous one as base and accent: glyphs A (plain), B = seac(A, A),
+		// C = seac(B, B), ...; the result must stay small (resolving composites from resolved composites doubles
+		// the outline at every link)
+		depth := int(seed)
+		rf := &renderFont{FontName: "Chain", Info: [][2]string{{"version", "(1)"}}, FontMatrix: "[0.001 0 0 0.001 0 0]", LenIV: 4, StdEncoding: true,
+			Glyphs: map[string][]byte{".notdef": cat(csInt(0), csInt(0), csOp(opHsbw), csOp(opEndchar))}}
+		rf.Glyphs["A"] = cat(csInt(0), csInt(500), csOp(opHsbw), csInt(10), csInt(10), csOp(opRmoveto), csInt(100), csOp(opHlineto), csInt(100), csOp(opVlineto), csOp(opClosepath), csOp(opEndchar))
+		for k := 1; k <= depth && k < 26; k++ {
+			rf.Glyphs[string(rune('A'+k))] = cat(csInt(0), csInt(500+k), csOp(opHsbw), csInt(0), csInt(10), csInt(10), csInt(64+k), csInt(64+k), csOp(opSeac))
+		}
+		data := rf.render(renderLayout{Format: "clear", IV: [4]byte{1, 2, 3, 4}})
+		hostileCall(o, cur, line, fmt.Sprintf("chain of %d composites, %d bytes", depth, len(data)), func() {
+			font, err := type1.Read(bytes.NewReader(data))
+			if err == nil && font != nil {
+				total := 0
+				for _, g := range font.Glyphs {
+					total += len(g.Cmds)
+				}
+				if total > 64*len(data) {
+					o.fail("C01", "the result of reading a font stays within a small multiple of the input size (no runaway allocation)", line, fmt.Sprint("<= ", 64*len(data), " path commands"), fmt.Sprint(total))
+				}
+			}
+		})
+		t1rLine(o, data)
 	case "cmap":
 		rr := newRng(r.next())
 		data := randCMap(rr).render(rr, "none")
